@@ -184,6 +184,91 @@ func c12Crosstalk(name, transport string, nClients, maxRead int) *e2x.Scenario {
 	}}
 }
 
+// c12Pipeline: one TCP client writes k queries back to back in one segment and reads k replies; the server handles
+// them sequentially on the one connection: replies come back in order, each for its own request.
+func c12Pipeline(name string, k, maxRead int) *e2x.Scenario {
+	return &e2x.Scenario{Name: name, New: func() (func(), func(*vsched.Exec) (string, map[string]string)) {
+		var got []string
+		var want []string
+		bad := ""
+		body := func() {
+			ln := simnet.NewListener("ln")
+			srv := &dns.Server{Listener: ln}
+			started := false
+			srv.NotifyStartedFunc = func() { started = true }
+			srv.Handler = dns.HandlerFunc(func(w dns.ResponseWriter, q *dns.Msg) {
+				before := q.String()
+				vsched.Point("handler.yield", nil)
+				if q.String() != before {
+					bad = "request changed under the handler"
+				}
+				m := new(dns.Msg)
+				m.SetReply(q)
+				m.Answer = []dns.RR{&dns.TXT{Hdr: dns.RR_Header{Name: q.Question[0].Name, Rrtype: dns.TypeTXT, Class: 1}, Txt: []string{"saw:" + tagOf(before)}}}
+				if err := w.WriteMsg(m); err != nil {
+					bad = "handler could not write: " + err.Error()
+				}
+			})
+			vsched.GoNamed("serve", func() { srv.ActivateAndServe() })
+			vsched.Point("await-started", func() bool { return started })
+			c, err := ln.Dial("c0")
+			if err != nil {
+				bad = "dial refused"
+				return
+			}
+			if maxRead > 0 {
+				vsched.GoNamed("segmenter", func() {
+					vsched.Point("await-accept", func() bool { return len(ln.Conns) > 0 })
+					ln.Conns[0].MaxRead = maxRead
+				})
+			}
+			var all []byte
+			for i := 0; i < k; i++ {
+				q := c12Request(i)
+				want = append(want, fmt.Sprintf("id=%#x saw:%s", q.Id, tagOf(q.String())))
+				all = append(all, frame(q)...)
+			}
+			c.Write(all)
+			var acc []byte
+			buf := make([]byte, 4096)
+			for len(got) < k {
+				n, err := c.Read(buf)
+				acc = append(acc, buf[:n]...)
+				for len(acc) >= 2 && len(acc) >= 2+int(binary.BigEndian.Uint16(acc)) {
+					l := int(binary.BigEndian.Uint16(acc))
+					m := new(dns.Msg)
+					if m.Unpack(acc[2:2+l]) != nil || len(m.Answer) != 1 {
+						got = append(got, "undecodable")
+					} else {
+						got = append(got, fmt.Sprintf("id=%#x %s", m.Id, strings.Join(m.Answer[0].(*dns.TXT).Txt, "")))
+					}
+					acc = acc[2+l:]
+				}
+				if err != nil {
+					break
+				}
+			}
+			c.Close()
+			srv.Shutdown()
+		}
+		check := func(x *vsched.Exec) (string, map[string]string) {
+			v := map[string]string{}
+			if x.Deadlock {
+				v["deadlock"] = fmt.Sprint(x.Blocked)
+				return "deadlock", v
+			}
+			if bad != "" {
+				v["pipelining/"+strings.Fields(bad)[0]] = bad
+			}
+			if strings.Join(got, ";") != strings.Join(want, ";") {
+				v["pipelining/replies"] = fmt.Sprintf("replies %v, want %v (in order)", got, want)
+			}
+			return fmt.Sprint(len(got)), v
+		}
+		return body, check
+	}}
+}
+
 func tagOf(s string) string {
 	h := uint64(14695981039346656037)
 	for i := 0; i < len(s); i++ {
@@ -303,6 +388,8 @@ func c12Spaces(c *fw.Ctx) {
 		{c12Crosstalk("e2/crosstalk/tcp/2-clients", "tcp", 2, 0), 0, 1},
 		{c12Crosstalk("e2/crosstalk/pc/3-clients", "pc", 3, 0), 0, 1},
 		{c12Crosstalk("e2/crosstalk/tcp/3-clients", "tcp", 3, 0), -1, 0},
+		{c12Pipeline("e2/pipelining/tcp/3-queries-one-segment", 3, 0), 2, 3},
+		{c12Pipeline("e2/pipelining/tcp/2-queries-5-octet-reads", 2, 5), 1, 2},
 		{c12Crosstalk("e2/segmentation/tcp/1-octet-reads", "tcp", 1, 1), 1, 2},
 		{c12Crosstalk("e2/segmentation/tcp/3-octet-reads", "tcp", 1, 3), 1, 2},
 	}
